@@ -33,13 +33,13 @@ RULE = (
 ASSUMPTIONS = [
     "expected envelopes are computed from the harness IR by the rules of WSDL 1.1 / SOAP 1.1 literal bindings: document = the part's element as the only body child; rpc = wrapper element named after the operation in the soap:body namespace, parts by type as unqualified children named after the part, parts by element as that element; the rpc response wrapper is named after the output message (what the generated output class declares)",
     "required headers = content-type text/xml plus SOAPAction when the binding gives a non-empty soapAction (an empty soapAction is not judged)",
-    "the `requests` stand-in of /verif/shims is importable but never used: the client gets a recording transport",
+    "the client runs with the real DefaultTransport over a recording requests.Session look-alike (the `requests` stand-in of /verif/shims supplies Response/HTTPError only); faults are answered with HTTP 500",
     "codegen stand-ins of /verif/shims",
 ]
 MIN_DISTINCT = {"quick": 300, "thorough": 8000}
 TIME = {"quick": 45, "thorough": 1200}
 SHARDS = {"quick": 14, "thorough": 14}
-REQUIRED_FEATURES = ["style:document", "style:rpc", "response:normal", "response:fault", "header", "part-by-type"]
+REQUIRED_FEATURES = ["style:document", "style:rpc", "response:normal", "response:fault", "header", "part-by-type", "part-by-complex-type"]
 
 ENV = wsdlgen.ENV
 VALUES = {"string": ("text é", "text é"), "int": (42, "42"), "boolean": (True, "true"), "decimal": ("1.5", "1.5"), "date": ("2020-01-02", "2020-01-02"), "double": (2.5, "2.5")}
@@ -60,16 +60,24 @@ for m in mods:
         if isinstance(obj, type) and hasattr(obj, "style") and hasattr(obj, "input") and hasattr(obj, "location"):
             services[name] = obj
 
-class Recorder(Transport):
-    def __init__(self, response):
-        self.response = response
-        self.calls = []
-    def get(self, url, params, headers):
-        self.calls.append(("get", url, None, dict(headers)))
-        return self.response
-    def post(self, url, data, headers):
-        self.calls.append(("post", url, data if isinstance(data, str) else data.decode("utf-8"), dict(headers)))
-        return self.response
+import requests
+from xsdata.formats.dataclass.transports import DefaultTransport
+
+class Recorder:
+    """A requests.Session look-alike behind the real DefaultTransport: records every call and answers with a canned
+    HTTP response (status 500 for SOAP faults, as SOAP 1.1 over HTTP prescribes)."""
+    def __init__(self, status, response):
+        self.status, self.response, self.calls = status, response, []
+    def _answer(self, url):
+        r = requests.Response()
+        r.status_code, r.reason, r.url, r._content = self.status, "canned", url, self.response
+        return r
+    def get(self, url, params=None, headers=None, timeout=None):
+        self.calls.append(("get", url, None, dict(headers or {})))
+        return self._answer(url)
+    def post(self, url, data=None, headers=None, timeout=None):
+        self.calls.append(("post", url, data if isinstance(data, str) else data.decode("utf-8"), dict(headers or {})))
+        return self._answer(url)
 
 def body_key(svc):
     """(namespace, name) of the first Body child the input envelope declares."""
@@ -101,15 +109,16 @@ for op in ARGS["ops"]:
         run = {"kind": kind}
         try:
             client = Client.from_service(svc)
-            client.transport = Recorder(response.encode("utf-8"))
+            session = Recorder(500 if kind == "fault" else 200, response.encode("utf-8"))
+            client.transport = DefaultTransport(session=session)
             result = client.send(op["payload"], headers={"X-Verif": "1"})
-            run["calls"] = client.transport.calls
+            run["calls"] = session.calls
             run["result_type"] = type(result).__qualname__
             run["result_xml"] = XmlSerializer().render(result)
         except Exception as e:
             run["error"] = type(e).__name__ + ": " + str(e)[:500]
             run["traceback"] = "".join(traceback.format_exception(type(e), e, e.__traceback__))[-1500:]
-            run["calls"] = getattr(getattr(locals().get("client"), "transport", None), "calls", [])
+            run["calls"] = getattr(locals().get("session"), "calls", [])
         rec["runs"].append(run)
     out["ops"].append(rec)
 RESULT = out
@@ -169,6 +178,12 @@ def build_messages(w: wsdlgen.Wsdl, op: wsdlgen.Op, rng):
                 d, x = element_values(e, rng)
                 inner[e.name] = d
                 wrapper.append(element_xml(w.types_ns, e.name, x))
+            elif p.ctype:  # a part given by a named complex type: unqualified accessor named after the part, qualified children
+                d, x = element_values(w.ct(p.ctype), rng)
+                inner[p.name] = d
+                acc = element_xml(w.types_ns, "x", x)
+                acc.tag = p.name
+                wrapper.append(acc)
             else:
                 inner[p.name] = VALUES[p.type][0]
                 etree.SubElement(wrapper, p.name).text = VALUES[p.type][1]
